@@ -35,7 +35,7 @@ EXTENDS StoreTree, Json
 
 CONSTANTS Scens,    \* the scenarios: records [name, rounds]; rounds: sequence of [n, lay, f1, m, a, k, f2, fs]
           Sparse    \* TRUE: the invariants that walk the whole tree and both pools (BTreeOk, Corr, PoolOk) are evaluated
-                    \* after every step that restructured something and after every 8th step, not after every step
+                    \* after every step that restructured something and after every 8th step, not after every step (PiecesOk likewise)
 
 VARIABLES sc,       \* the scenario of this behaviour
           pc,       \* index of the next operation
@@ -184,8 +184,8 @@ Structural == {"node:new-page", "node:last-of-page", "node:recycled", "car:new-p
                "get:split-delete-insert", "gen:ambiguous-piece"}
 Heavy == ~Sparse \/ wit.tags \cap Structural # {} \/ pc % 8 = 0 \/ pc > Total(sc)
 
-GenInv == /\ (Heavy => BTreeOk /\ Corr /\ PoolOk)
-          /\ SearchOk /\ NoBug /\ PiecesOk
+GenInv == /\ (Heavy => BTreeOk /\ Corr /\ PoolOk /\ PiecesOk)
+          /\ SearchOk /\ NoBug
 
 (* at the end of a scenario everything is one free piece again *)
 EndOk == pc = Total(sc) + 2 => Len(pcs) = 1 /\ pcs[1].s = "F" /\ pcs[1].q = RQ(sc)
